@@ -249,7 +249,7 @@ def run(rep, tier):
             "presence patterns other than {all, none, one absent, one alone} (members are handled independently by the generated code)")
 
 
-def byte_level(rep):
+def byte_level(rep, meaning=True):
     """byte level (quick-xml events, escaping): the event layer does not fit CBMC (a single concrete document did not finish
     symbolic execution in 540 s), so it is covered by a native exhaustive sweep only: validation, not solver-decided"""
     from vlib import replay
@@ -267,7 +267,7 @@ def byte_level(rep):
         rep.obligation("byte-level sweep: %d decode/encode runs over all texts of <= 3 bytes over {x, space, tab, newline, >, &, <, ], quote, apostrophe}: "
                        "decoded text exact (whitespace kept) or refused; encoded text well-formed and decodes back" % out["evaluations"],
                        "replayer(native sweep; not solver-decided)", "holds", time.time() - t0, queries=out["evaluations"])
-    for m in out["meaning"]:
+    for m in (out["meaning"] if meaning else []):
         if not m["ok"]:
             role = "xml_cdata_dropped" if "CDATA" in m["doc"] else "xml_comment_splits_text" if "<!--" in m["doc"] else "xml_text_outside_root"
             res = rep.violation(role, "document %r decodes to %s, its XML meaning is %r (or refusal)" % (m["doc"], m["got"], m["want"]),
